@@ -269,3 +269,181 @@ Proof.
     change (list_flat (XConcat (y :: ys))) with (cat_results (map list_flat (y :: ys))).
     rewrite Hc. cbn [bind export_resolved_r]. rewrite Ht. cbn [bind]. rewrite rev_involutive. reflexivity.
 Qed.
+
+(* ------------------------------------------------------------------------------------------ parameter values *)
+(* the image of export_param_value: int64 integers, doubles, literals, prefixed numbers that are int64 integers or
+   non-integral decimals.  (string_value is never written; a VStr comes back as a literal.) *)
+Definition num_normal (n : pnum) : bool :=
+  match n with
+  | NInt z => in_i64 z
+  | NDec d => negb (dec_is_int d)
+  | _ => false
+  end.
+
+Definition value_normal (v : pvalue) : bool :=
+  match v with
+  | VInt z => in_i64 z
+  | VDbl _ => true
+  | VLit _ => true
+  | VPre p n => smem p siprefix_names && num_normal n
+  | VStr _ | VUnset => false
+  end.
+
+Lemma pow10_0 : pow10 0 = 1.
+Proof. rewrite pow10_spec. reflexivity. Qed.
+
+Lemma num_roundtrip_int z e p : in_i64 z = true -> export_prefix e = Ok p ->
+  export_value (HPre (of_int z 0) e) = Ok (Some (VPre p (NInt z))).
+Proof.
+  intros Hz Hp. cbn [export_value]. rewrite Hp. cbn [bind]. unfold export_num, dec_is_int.
+  rewrite dexp_of_int. change (0 <=? 0) with true. cbv iota.
+  unfold dtrunc. rewrite dexp_of_int. change (0 <=? 0) with true. cbv iota. rewrite dint_of_int, pow10_0, Z.mul_1_r.
+  rewrite Hz. reflexivity.
+Qed.
+
+Lemma value_roundtrip v : value_normal v = true -> rt_value v = Ok v.
+Proof.
+  destruct v as [z|h|s|s|p n|]; intros H; cbn [value_normal] in H; try discriminate.
+  - unfold rt_value. cbn [import_value bind export_value]. rewrite H. reflexivity.
+  - reflexivity.
+  - reflexivity.
+  - apply andb_true_iff in H. destruct H as [Hp Hn]. apply smem_In in Hp.
+    destruct (prefix_roundtrip_back p Hp) as [e [Hi He]].
+    unfold rt_value. cbn [import_value]. rewrite Hi. cbn [bind].
+    destruct n as [z|h|d|s|]; cbn [num_normal] in Hn; try discriminate.
+    + cbn [bind]. rewrite (num_roundtrip_int z e p Hn He). reflexivity.
+    + cbn [bind export_value]. rewrite He. cbn [bind]. unfold export_num. apply negb_true_iff in Hn. rewrite Hn. reflexivity.
+Qed.
+
+Definition dict_params_normal (ps : params) : bool :=
+  snodup (map fst ps) && forallb (fun kv : name * pvalue => value_normal (snd kv)) ps.
+
+Lemma dict_params_roundtrip ps : dict_params_normal ps = true -> rt_dict_params ps = Ok ps.
+Proof.
+  unfold dict_params_normal, rt_dict_params. intros H. apply andb_true_iff in H. destruct H as [H1 H2].
+  rewrite H1. cbn [chk bind]. apply traverse_id. intros [k v] Hin. rewrite forallb_forall in H2.
+  specialize (H2 _ Hin). simpl in *. rewrite (value_roundtrip v H2). reflexivity.
+Qed.
+
+(* ------------------------------------------------------------------------------------------ names *)
+Lemma split_dot_nonempty s : split_dot s <> [].
+Proof. destruct s as [|c s]; simpl; [discriminate|]. destruct (Ascii.eqb c "."); [discriminate|]. destruct (split_dot s); discriminate. Qed.
+
+Lemma join_cons p l : l <> [] -> join_dot (p :: l) = p ++ String "." (join_dot l).
+Proof. destruct l; [congruence | reflexivity]. Qed.
+
+Lemma name_roundtrip s : rt_name s = s.
+Proof.
+  unfold rt_name. induction s as [|c s IH]; [reflexivity|]. cbn [split_dot].
+  destruct (Ascii.eqb c ".") eqn:E.
+  - apply Ascii.eqb_eq in E. subst c. rewrite join_cons by apply split_dot_nonempty. rewrite IH. reflexivity.
+  - pose proof (split_dot_nonempty s) as N. destruct (split_dot s) as [|p ps] eqn:Es; [congruence|].
+    rewrite <- IH. destruct ps as [|q qs]; reflexivity.
+Qed.
+
+(* ------------------------------------------------------------------------------------------ signals and ports *)
+Definition isp (ports : list (name * string)) (sw : name * Z) : bool :=
+  match assoc (fst sw) ports with Some _ => true | None => false end.
+Definition idir (d : string) : string := match import_dir d with Ok x => x | Error _ => d end.
+Definition hsig_of (ports : list (name * string)) (sw : name * Z) : hsignal :=
+  {| hs_name := fst sw; hs_width := snd sw; hs_dir := option_map idir (assoc (fst sw) ports) |}.
+Definition dir_of (ports : list (name * string)) (n : name) : string := match assoc n ports with Some d => d | None => "" end.
+
+Definition ports_ok (sigs : list (name * Z)) (ports : list (name * string)) : bool :=
+  snodup (map fst sigs) && snodup (map fst ports) && forallb (fun p : name * string => smem (fst p) (map fst sigs)) ports &&
+  forallb (fun p : name * string => smem (snd p) direction_names) ports.
+
+Lemma assoc_Some_In {A} k (v : A) l : assoc k l = Some v -> In (k, v) l.
+Proof.
+  induction l as [|[k' v'] l IH]; simpl; [discriminate|]. destruct (String.eqb k k') eqn:E.
+  - intros H. inversion H; subst. apply String.eqb_eq in E. subst. left. reflexivity.
+  - intros H. right. apply IH. exact H.
+Qed.
+
+Lemma traverse_map_in {A B C} (f : B -> result C) (g : A -> B) (k : A -> C) l :
+  (forall x, In x l -> f (g x) = Ok (k x)) -> traverse f (map g l) = Ok (map k l).
+Proof.
+  induction l as [|x xs IH]; intros H; simpl; [reflexivity|].
+  rewrite (H x (or_introl eq_refl)). simpl. rewrite IH by (intros y Hy; apply H; right; exact Hy). reflexivity.
+Qed.
+
+Lemma filter_map_comm {A B} (p : B -> bool) (q : A -> bool) (g : A -> B) l :
+  (forall x, p (g x) = q x) -> filter p (map g l) = map g (filter q l).
+Proof. intros H. induction l as [|x xs IH]; simpl; [reflexivity|]. rewrite H. destruct (q x); simpl; rewrite IH; reflexivity. Qed.
+
+Lemma import_sigs_ok sigs ports : ports_ok sigs ports = true -> import_sigs sigs ports = Ok (map (hsig_of ports) sigs).
+Proof.
+  unfold ports_ok, import_sigs. intros H. apply andb_true_iff in H. destruct H as [H H4].
+  apply andb_true_iff in H. destruct H as [H H3]. apply andb_true_iff in H. destruct H as [H1 H2].
+  rewrite H1, H2, H3. cbn [chk bind]. apply traverse_map_ok. intros sw Hin. unfold hsig_of.
+  destruct (assoc (fst sw) ports) as [d|] eqn:Ea; [|reflexivity].
+  apply assoc_Some_In in Ea. rewrite forallb_forall in H4. specialize (H4 _ Ea). cbn [snd] in H4. apply smem_In in H4.
+  destruct (dir_roundtrip_back d H4) as [x [Hi _]]. cbn [option_map]. unfold idir. rewrite Hi. reflexivity.
+Qed.
+
+Lemma is_port_hsig ports sw : is_port (hsig_of ports sw) = isp ports sw.
+Proof. unfold is_port, hsig_of, isp. simpl. destruct (assoc (fst sw) ports); reflexivity. Qed.
+
+Lemma export_ports_ok sigs ports : ports_ok sigs ports = true ->
+  export_ports (map (hsig_of ports) sigs) = Ok (map (fun sw : name * Z => (fst sw, dir_of ports (fst sw))) (filter (isp ports) sigs)).
+Proof.
+  intros H. unfold export_ports. rewrite (filter_map_comm _ (isp ports)) by (apply is_port_hsig).
+  apply traverse_map_in. intros sw Hin. apply filter_In in Hin. destruct Hin as [_ Hp].
+  unfold isp in Hp. unfold hsig_of, dir_of. cbn [hs_dir hs_name].
+  destruct (assoc (fst sw) ports) as [d|] eqn:Ea; [|discriminate]. cbn [option_map].
+  unfold ports_ok in H. apply andb_true_iff in H. destruct H as [_ H4].
+  apply assoc_Some_In in Ea. rewrite forallb_forall in H4. specialize (H4 _ Ea). cbn [snd] in H4. apply smem_In in H4.
+  destruct (dir_roundtrip_back d H4) as [x [Hi He]]. unfold idir. rewrite Hi, He. reflexivity.
+Qed.
+
+Lemma ports_rebuild (ports : list (name * string)) : snodup (map fst ports) = true ->
+  map (fun n => (n, dir_of ports n)) (map fst ports) = ports.
+Proof.
+  intros N. rewrite map_map. rewrite <- (map_id ports) at 2. apply map_ext_in. intros [n d] Hin. simpl.
+  unfold dir_of. rewrite (assoc_In n d ports N Hin). reflexivity.
+Qed.
+
+Fixpoint slist_eqb (a b : list string) : bool :=
+  match a, b with
+  | [], [] => true
+  | x :: a', y :: b' => String.eqb x y && slist_eqb a' b'
+  | _, _ => false
+  end.
+Lemma slist_eqb_eq a : forall b, slist_eqb a b = true -> a = b.
+Proof.
+  induction a as [|x a IH]; destruct b as [|y b]; simpl; try discriminate; [reflexivity|].
+  intros H. apply andb_true_iff in H. destruct H as [H1 H2]. apply String.eqb_eq in H1. subst. f_equal. apply IH. exact H2.
+Qed.
+
+(* the ports of a normal module / external module come back as they were *)
+Lemma export_ports_normal sigs ports : ports_ok sigs ports = true ->
+  slist_eqb (map fst (filter (isp ports) sigs)) (map fst ports) = true ->
+  export_ports (map (hsig_of ports) sigs) = Ok ports.
+Proof.
+  intros H E. rewrite (export_ports_ok sigs ports H). apply slist_eqb_eq in E.
+  rewrite <- (map_map fst (fun n => (n, dir_of ports n))). rewrite E. rewrite ports_rebuild; [reflexivity|].
+  unfold ports_ok in H. apply andb_true_iff in H. destruct H as [H _]. apply andb_true_iff in H. destruct H as [H _].
+  apply andb_true_iff in H. destruct H as [_ H]. exact H.
+Qed.
+
+(* ------------------------------------------------------------------------------------------ external modules *)
+Definition ext_normal (x : c11ext) : bool :=
+  ports_ok (cx_sigs x) (cx_ports x) && forallb (isp (cx_ports x)) (cx_sigs x) &&
+  slist_eqb (map fst (cx_sigs x)) (map fst (cx_ports x)) && smem (cx_spicetype x) schema_spicetype_names.
+
+Lemma filter_all {A} (p : A -> bool) l : forallb p l = true -> filter p l = l.
+Proof. induction l as [|x xs IH]; simpl; [reflexivity|]. intros H. apply andb_true_iff in H. destruct H as [H1 H2]. rewrite H1, IH by exact H2. reflexivity. Qed.
+
+Lemma ext_roundtrip x : ext_normal x = true -> rt_ext x = Ok x.
+Proof.
+  unfold ext_normal. intros H. apply andb_true_iff in H. destruct H as [H Hs]. apply andb_true_iff in H. destruct H as [H He].
+  apply andb_true_iff in H. destruct H as [Hp Ha]. unfold rt_ext.
+  rewrite (import_sigs_ok _ _ Hp). cbn [bind].
+  assert (forallb is_port (map (hsig_of (cx_ports x)) (cx_sigs x)) = true) as ->.
+  { rewrite forallb_forall. intros h Hh. apply in_map_iff in Hh. destruct Hh as [sw [<- Hin]]. rewrite is_port_hsig.
+    rewrite forallb_forall in Ha. apply Ha. exact Hin. }
+  cbn [chk bind]. apply smem_In in Hs. destruct (spicetype_roundtrip_back _ Hs) as [st [Hi Hx]]. rewrite Hi. cbn [bind].
+  rewrite export_ports_normal; [| exact Hp | rewrite (filter_all _ _ Ha); exact He]. cbn [bind]. rewrite Hx. cbn [bind].
+  rewrite map_map. destruct x as [d n sg pt st']. cbn [cx_domain cx_name cx_sigs cx_ports cx_spicetype] in *.
+  f_equal. f_equal. rewrite <- (map_id sg) at 2. apply map_ext. intros [a b]. reflexivity.
+Qed.
